@@ -3,3 +3,9 @@ package props
 import "testing"
 
 func TestC04(t *testing.T) { Run(t, PropC04) }
+
+func TestC11(t *testing.T) { Run(t, PropC11) }
+
+func TestC13(t *testing.T) { Run(t, PropC13) }
+
+func TestC14(t *testing.T) { Run(t, PropC14) }
